@@ -61,7 +61,12 @@ func (x *fleetExec) chmap(e engine.Event, nd *knode, sig string) bool {
 	if nd.model.Lossy || nd.model.Folded() {
 		return false // collapsed content may sit far from the absorbed values
 	}
-	identity := scale == 1 && nd.mkey == mapKey(spec)
+	// "with an equal mapping and scale 1 the result is an exact copy": equal in the library's own sense
+	// (two mappings built from an accuracy and from the corresponding base differ by an ulp and are equal)
+	identity := false
+	if scale == 1 {
+		x.lib("Equals", sig, func() { identity = nd.mapping.Equals(nm) })
+	}
 	if !identity {
 		// resource guards: size of the result and fan-out of one source bin
 		a1, a2 := nd.alpha(), float64(spec.Alpha)
@@ -81,6 +86,10 @@ func (x *fleetExec) chmap(e engine.Event, nd *knode, sig string) bool {
 		// documented: with an equal mapping and scale 1 the result is a copy of the source - it
 		// keeps the source's store kind, the supplied stores are not used
 		dst.spec.Store, dst.spec.N = nd.spec.Store, nd.spec.N
+		// ... and the source's mapping object
+		dst.spec.Map, dst.spec.Alpha, dst.spec.ByGam, dst.spec.Gamma, dst.spec.Offset = nd.spec.Map, nd.spec.Alpha, nd.spec.ByGam, nd.spec.Gamma, nd.spec.Offset
+		dst.mapping, dst.mkey = nd.mapping, nd.mkey
+		nm = nd.mapping
 		spec = &dst.spec
 	}
 	x.lib("ChangeMapping", sig, func() {
